@@ -14,6 +14,7 @@ mod c07;
 mod c08;
 mod c11;
 mod c12;
+mod c13;
 mod c14;
 mod c15;
 mod c16;
@@ -44,6 +45,7 @@ fn gen(prop: &str, seed: u64, n: usize, tier: &str) -> Option<Vec<Case>> {
         "C08" => c08::gen(seed, n, tier),
         "C11" => c11::gen(seed, n, tier),
         "C12" => c12::gen(seed, n, tier),
+        "C13" => c13::gen(seed, n, tier),
         "C14" => c14::gen(seed, n, tier),
         "C15" => c15::gen(seed, n, tier),
         "C16" => c16::gen(seed, n, tier),
@@ -66,6 +68,7 @@ fn run(prop: &str, c: &Case) -> Option<Case> {
         "C08" => c08::run(c),
         "C11" => c11::run(c),
         "C12" => c12::run(c),
+        "C13" => c13::run(c),
         "C14" => c14::run(c),
         "C15" => c15::run(c),
         "C16" => c16::run(c),
@@ -84,6 +87,7 @@ fn judge(prop: &str, c: &Case) -> Vec<String> {
         "C06" => c06::judge(c, &c.outs),
         "C11" => c11::judge(c, &c.outs),
         "C12" => c12::judge(c, &c.outs),
+        "C13" => c13::judge(c, &c.outs),
         "C14" => c14::judge(c, &c.outs),
         "C15" => c15::judge(c, &c.outs),
         "C16" => c16::judge(c, &c.outs),
